@@ -42,6 +42,15 @@ func main() {
 		}
 		nDel, nAdd := 5+rng.Intn(maxFiles), 5+rng.Intn(maxFiles)
 		shape := []string{"unrelated", "moved", "lookalike"}[rng.Intn(3)]
+		if rng.Intn(30) == 0 && maxFiles > 30 {
+			// more than 1000 leftover files: the candidate lists are cut to one entry
+			shape = "huge"
+			nDel, nAdd = 520+rng.Intn(100), 520+rng.Intn(100)
+		} else if rng.Intn(15) == 0 && maxFiles > 30 {
+			// more than 50 size-close candidates per file
+			shape = "crowd"
+			nDel, nAdd = 60+rng.Intn(30), 60+rng.Intn(30)
+		}
 		timeouts := []time.Duration{1, 200 * time.Microsecond, time.Millisecond, 5 * time.Millisecond, 25 * time.Millisecond, 0}
 		timeout := timeouts[rng.Intn(len(timeouts))]
 		ra := &items.RenameAnalysis{SimilarityThreshold: []int{30, 50, 80, 95}[rng.Intn(4)], Timeout: timeout}
@@ -64,6 +73,8 @@ func main() {
 			var data []byte
 			if shape == "lookalike" {
 				data = text(rng, 20+rng.Intn(10), 6)
+			} else if shape == "huge" || shape == "crowd" {
+				data = text(rng, 4, 5)
 			} else {
 				data = text(rng, 15+rng.Intn(40), 400)
 			}
@@ -84,6 +95,8 @@ func main() {
 				}
 			case shape == "lookalike":
 				data = text(rng, 20+rng.Intn(10), 6)
+			case shape == "huge" || shape == "crowd":
+				data = text(rng, 4, 5)
 			default:
 				data = text(rng, 15+rng.Intn(40), 400)
 			}
